@@ -21,6 +21,7 @@ import (
 	"verif/internal/gen"
 	"verif/internal/gt"
 	"verif/internal/h"
+	"verif/internal/ops"
 	"verif/internal/ref"
 )
 
@@ -147,6 +148,43 @@ type Case struct {
 	NexusOpts docs.NexusOpts `json:"nexus_opts,omitempty"`
 	GotreeDoc bool           `json:"gotree_doc,omitempty"` // single-multi: document written by gotree's writer instead of the independent one
 	Mapped    bool           `json:"keyword_mapped,omitempty"`
+	// Hist (conversion chains): tree i was indexed and then edited in memory by these operations
+	// before it is converted (a tree that went through other commands of a pipeline first); what
+	// must come back is the model read back from the edited object.
+	Hist map[int][]ops.Op `json:"histories,omitempty"`
+}
+
+// histKinds: edits that keep the names (legal in all formats) and add no comments.
+var histKinds = []string{"reroot", "midpoint", "unroot", "collapse_len", "collapse_sup", "collapse_depth", "resolve", "rotate", "sort",
+	"rotate_node", "nni", "nni_undo", "shuffle_tips", "clone", "reinit", "clear_supports", "scale_lengths", "round_supports", "reroot_first"}
+
+// buildCase is build for a case with histories: the edited objects are what the writers see, and
+// the models of the case are replaced by the models read back from them.
+func buildCase(c *Case) ([]*tree.Tree, error) {
+	if len(c.Hist) == 0 {
+		return build(c.Trees)
+	}
+	c.Trees = append([]*ref.Node{}, c.Trees...)
+	var ts []*tree.Tree
+	for i, m := range c.Trees {
+		if h, has := c.Hist[i]; has {
+			t2, m2, ok, err := ops.Edited(m, h, false)
+			if err != nil {
+				return nil, err
+			}
+			if ok {
+				c.Trees[i] = m2
+				ts = append(ts, t2)
+				continue
+			}
+		}
+		t, err := gt.FromModel(m)
+		if err != nil {
+			return nil, fmt.Errorf("newick parser rejects %s: %v", ref.Write(m), err)
+		}
+		ts = append(ts, t)
+	}
+	return ts, nil
 }
 
 func genCase(t *rapid.T, thorough bool) Case {
@@ -183,6 +221,19 @@ func genCase(t *rapid.T, thorough bool) Case {
 		}
 	}
 	c.Mapped = relabel(t, c.Trees)
+	if (c.Chain == "newick-nexus" || c.Chain == "newick-phyloxml" || c.Chain == "nexus-phyloxml") && rapid.IntRange(0, 3).Draw(t, "hashist") == 0 {
+		c.Hist = map[int][]ops.Op{}
+		for i, m := range c.Trees {
+			// only trees without inner names: re-rooting a tree that has both inner names and supports
+			// brings a support next to a name, a state that Newick text cannot show and PhyloXML can -
+			// "the same tree" would then depend on the format
+			named := false
+			m.Walk(func(x, p *ref.Node) { named = named || (!x.IsTip() && x.Name != "") })
+			if !named && rapid.Bool().Draw(t, "histhere") {
+				c.Hist[i] = ops.GenHistoryOf(t, histKinds, 3)
+			}
+		}
+	}
 	c.Translate = rapid.Bool().Draw(t, "translate")
 	if c.Chain == "multinewick" || (c.Chain == "single-multi" && c.Format == "newick") {
 		c.Layout = docs.Layout{BreakAfterComma: rapid.Bool().Draw(t, "brk"), BlankLines: rapid.IntRange(0, 2).Draw(t, "blank"), Trailing: rapid.Bool().Draw(t, "trail"),
@@ -299,7 +350,7 @@ func breakTree(s string) string {
 func check(c Case) error {
 	switch c.Chain {
 	case "newick-nexus":
-		ts, err := build(c.Trees)
+		ts, err := buildCase(&c)
 		if err != nil {
 			return err
 		}
@@ -327,7 +378,7 @@ func check(c Case) error {
 		}
 		return same("Tree.Nexus()", 0, b1[0], c.Trees[0], false)
 	case "newick-phyloxml":
-		ts, err := build(c.Trees)
+		ts, err := buildCase(&c)
 		if err != nil {
 			return err
 		}
@@ -439,7 +490,7 @@ func check(c Case) error {
 		f := map[string]int{"newick": utils.FORMAT_NEWICK, "nexus": utils.FORMAT_NEXUS, "phyloxml": utils.FORMAT_PHYLOXML, "nextstrain": utils.FORMAT_NEXTSTRAIN}[c.Format]
 		var doc string
 		if c.GotreeDoc {
-			ts, err := build(c.Trees)
+			ts, err := buildCase(&c)
 			if err != nil {
 				return err
 			}
@@ -547,7 +598,7 @@ func layoutTexts(parts []string, l docs.Layout) string {
 func TestC13Formats(t *testing.T) {
 	h.Run(t, h.Spec[Case]{
 		Property: "C13", Name: "formats", Quick: 16000, Thorough: 640000,
-		Rule: "lists of 1..5 trees (2..9 tips, 5% up to 30/120) with labels legal in all three formats (graphic non-blank runes without ()[],:;=<>&'\", Nexus keywords mapped to k_, numeric tip labels, in one list in six the tips are named 0..n-1 or 1..n in an order unrelated to the tree, unique names over tips and inner nodes), lengths/supports/p-values/inner names present or not; chains newick->nexus(+-translate)->newick, Tree.Nexus(), newick->phyloxml->newick, nexus->phyloxml->nexus through gotree's writers and readers compared with the original model (shape, child order, names, lengths, supports); multi-Newick streams in free layout (line breaks after commas, blank and blank-only lines, trailing blanks, CRLF, no final newline, a last line of exactly 4096 / 8192 bytes without end of line, one tip per line with the line end right after the tip name, numbers written as 1.5E-01) with an optional syntactically broken member: ids consecutive in file order, every tree equal to its record, error record then nothing; first-tree reader vs first record of the multi-tree reader for the four formats on documents written independently or by gotree. Non-trivial = >= 2 trees or an inner name/support, and a layout feature / translate table / format other than plain Newick",
+		Rule: "lists of 1..5 trees (2..9 tips, 5% up to 30/120) with labels legal in all three formats (graphic non-blank runes without ()[],:;=<>&'\", Nexus keywords mapped to k_, numeric tip labels, in one list in six the tips are named 0..n-1 or 1..n in an order unrelated to the tree, unique names over tips and inner nodes), lengths/supports/p-values/inner names present or not; chains (in a quarter of the cases some of the trees were indexed and then edited in memory by 1-3 operations - re-root, collapse, resolve, NNI, rotate, copy ... - before they are converted, the model read back from the object being what must come back) newick->nexus(+-translate)->newick, Tree.Nexus(), newick->phyloxml->newick, nexus->phyloxml->nexus through gotree's writers and readers compared with the original model (shape, child order, names, lengths, supports); multi-Newick streams in free layout (line breaks after commas, blank and blank-only lines, trailing blanks, CRLF, no final newline, a last line of exactly 4096 / 8192 bytes without end of line, one tip per line with the line end right after the tip name, numbers written as 1.5E-01) with an optional syntactically broken member: ids consecutive in file order, every tree equal to its record, error record then nothing; first-tree reader vs first record of the multi-tree reader for the four formats on documents written independently or by gotree. Non-trivial = >= 2 trees or an inner name/support, and a layout feature / translate table / format other than plain Newick",
 		Gen: genCase, Check: check,
 		Classify: func(c Case) (bool, []string) {
 			l := []string{"chain:" + c.Chain}
